@@ -107,7 +107,8 @@ def segments(events):
             if ev.get("p") is None and e != "del":
                 continue
             for s in segs.values():
-                s["ev"].append({"e": e, "a": ev["a"], "p": ev.get("p") or [0, 0, 0], "fr": ev.get("fr", "")})
+                s["ev"].append({"e": e, "a": ev["a"], "p": ev.get("p") or [0, 0, 0], "fr": ev.get("fr", "").split(" < ")[0],
+                                "frs": ev.get("frs") or ev.get("fr", "")})
         elif e == "cells":
             segs[ev["c"]] = {"size": ev["size"], "ev": [{"e": "new", "a": a, "p": pos[a], "fr": "snapshot"}
                                                         for a in sorted(present) if pos.get(a)]}
@@ -115,7 +116,8 @@ def segments(events):
             segs[ev["c"]]["ev"].append({"e": "reset", "a": 0, "p": [0, 0, 0], "fr": ""})
         elif e in ("add", "rem", "query"):
             s = segs[ev["c"]]
-            d = {"e": e, "a": ev["a"], "p": ev.get("p") or [0, 0, 0], "fr": ev.get("fr", "")}
+            d = {"e": e, "a": ev["a"], "p": ev.get("p") or [0, 0, 0], "fr": ev.get("fr", "").split(" < ")[0],
+                 "frs": ev.get("frs") or ev.get("fr", "")}
             if e == "add":
                 d["key"] = ev["key"]
             if e == "query":
@@ -204,21 +206,21 @@ def attribute(t, l, a, b):
     ev = t["ev"]
 
     def state(x):
-        binned, moved_after, fr_unbin, fr_move = False, False, "never-added", ""
+        binned, moved_after, fr_unbin, fr_move = False, False, ("never-added", ""), ("", "")
         for e in ev[:l - 1]:
             if e["e"] == "reset":
-                binned, moved_after, fr_unbin = False, False, "reset"
+                binned, moved_after, fr_unbin = False, False, ("reset", "")
             elif e["a"] != x:
                 continue
             elif e["e"] == "add":
                 binned, moved_after = True, False
             elif e["e"] == "rem":
-                binned, fr_unbin = False, e["fr"]
+                binned, fr_unbin = False, (e["fr"], e.get("frs", ""))
             elif e["e"] == "new":
                 if not binned:
-                    fr_unbin = "created:" + e["fr"]
+                    fr_unbin = ("created:" + e["fr"], e.get("frs", ""))
             elif e["e"] == "set" and binned:
-                moved_after, fr_move = True, e["fr"]
+                moved_after, fr_move = True, (e["fr"], e.get("frs", ""))
         return binned, moved_after, fr_unbin, fr_move
 
     bb, bm, bu, bf = state(b)
@@ -231,7 +233,7 @@ def attribute(t, l, a, b):
         return "query-atom-unbinned", au
     if am:
         return "query-atom-stale", af
-    return "lookup", "Cells"
+    return "lookup", ("Cells", "")
 
 
 def judge(ctx, traces, verdicts, origin_default):
@@ -242,29 +244,29 @@ def judge(ctx, traces, verdicts, origin_default):
             if kind == "Q":
                 a, miss, ghosts = v[3], v[4], v[5]
                 for b in miss:
-                    cause, culprit = attribute(t, l, a, b)
-                    ctx.violation({"invariant": "QueryComplete", "cause": cause, "culprit": culprit},
+                    cause, (culprit, stack) = attribute(t, l, a, b)
+                    ctx.violation({"invariant": "QueryComplete", "cause": cause, "culprit": culprit, "stack": stack or culprit},
                                   f"{origin}: query #{l} of atom {a} ({t['ev'][l-1].get('fr','')}) misses in-range atom {b}",
                                   {"origin": origin, "event": l, "atom": a, "missed": b,
                                    "window": t["ev"][max(0, l - 6):l] if len(t["ev"]) < 400 else None,
                                    "history": t.get("hist")})
                 for b in ghosts:
-                    fr = ""
+                    fr, stack = "", ""
                     for e in t["ev"][:l - 1]:
                         if e["e"] == "del" and e["a"] == b:
-                            fr = e["fr"]
-                    ctx.violation({"invariant": "QuerySound", "cause": "ghost", "culprit": fr},
+                            fr, stack = e["fr"], e.get("frs", "")
+                    ctx.violation({"invariant": "QuerySound", "cause": "ghost", "culprit": fr, "stack": stack or fr},
                                   f"{origin}: query #{l} of atom {a} returns atom {b} that left the structure in {fr}",
                                   {"origin": origin, "event": l, "atom": a, "ghost": b})
             elif kind == "S":
                 for b in v[3]:
-                    fr = ""
+                    fr, stack = "", ""
                     for e in t["ev"]:
                         if e["a"] == b and e["e"] == "add":
-                            fr = ""
+                            fr, stack = "", ""
                         elif e["a"] == b and e["e"] == "set":
-                            fr = e.get("fr", "")
-                    ctx.violation({"invariant": "Consistent", "cause": "stale-at-end", "culprit": fr},
+                            fr, stack = e.get("fr", ""), e.get("frs", "")
+                    ctx.violation({"invariant": "Consistent", "cause": "stale-at-end", "culprit": fr, "stack": stack or fr},
                                   f"{origin}: when the cell list was last used atom {b} was filed in the cell of an earlier position "
                                   f"(moved by {fr} without remove_cell / add_cell)", {"origin": origin, "atom": b})
             elif kind == "K":
